@@ -301,6 +301,15 @@ func (mc *multiShard) getShardForRepair(currentTick uint64) []shardRepair {
 
 func (mc *multiShard) update(nhi pb.NodeHostInfo) {
 	toKill := mc.doUpdate(nhi)
+	// the report is the full list of what runs on this NodeHost, it replaces
+	// whatever was recorded for it before
+	kept := mc.ReplicasToKill[:0]
+	for _, ntk := range mc.ReplicasToKill {
+		if ntk.Address != nhi.RaftAddress {
+			kept = append(kept, ntk)
+		}
+	}
+	mc.ReplicasToKill = kept
 	for _, ntk := range toKill {
 		n := replicaToKill{
 			ShardID:   ntk.ShardId,
